@@ -148,6 +148,8 @@ impl CountVectorizerParams {
                 self.0.tokenizer_deserialization_guard = true;
             }
             Tokenizer::Regex(regex_str) => {
+                // the latest call decides: a function tokenizer set earlier must not stay in force
+                self.0.tokenizer_function = None;
                 self.0.split_regex_expr = regex_str.to_string();
                 self.0.tokenizer_deserialization_guard = false;
             }
